@@ -47,18 +47,33 @@ impl<'r> Series<'r> {
         if name == key::GENOTYPE {
             match self.ty {
                 Type::Int8(len) => return get_genotype_value(self.src, header, len, i),
-                _ => todo!("unhandled type"),
+                _ => {
+                    return Some(Some(Err(io::Error::new(
+                        io::ErrorKind::InvalidData,
+                        "invalid genotype type",
+                    ))));
+                }
             }
         }
 
-        let (number, ty) = header
+        let Some((number, ty)) = header
             .formats()
             .get(name)
             .map(|format| (format.number(), format.ty()))
-            .expect("missing type definition");
+        else {
+            return Some(Some(Err(io::Error::new(
+                io::ErrorKind::InvalidData,
+                "missing type definition",
+            ))));
+        };
 
         let value = match (number, ty, self.ty) {
-            (Number::Count(0), _, _) => todo!("invalid number for type"),
+            (Number::Count(0), _, _) => {
+                return Some(Some(Err(io::Error::new(
+                    io::ErrorKind::InvalidData,
+                    "invalid number for type",
+                ))));
+            }
 
             (_, _, Type::Int8(0) | Type::Int16(0) | Type::Int32(0) | Type::Float(0)) => {
                 return Some(Some(Err(io::Error::new(
@@ -97,7 +112,12 @@ impl<'r> Series<'r> {
                 get_string_array_value(self.src, len, i)
             }
 
-            _ => todo!("unhandled type"),
+            _ => {
+                return Some(Some(Err(io::Error::new(
+                    io::ErrorKind::InvalidData,
+                    "type mismatch",
+                ))));
+            }
         };
 
         match value {
